@@ -222,8 +222,14 @@ func (fn *UserDefinedFunction) execute(ctx context.Context, scope *ReferenceScop
 	}
 
 	proc := NewProcessorWithScope(scope.Tx, scope)
-	if _, err := proc.execute(ctx, fn.Statements); err != nil {
+	flow, err := proc.execute(ctx, fn.Statements)
+	if err != nil {
 		return nil, err
+	}
+	if flow == Exit {
+		// EXIT reached through EXECUTE or SOURCE in the function body terminates the procedure:
+		// an expression has no flow to hand to its statement, so it travels like EXIT with a code.
+		return nil, NewForcedExit(0)
 	}
 
 	ret := proc.returnVal
